@@ -597,7 +597,7 @@ func TestC12_Confinement(t *testing.T) {
 				accepted = true
 				got = append(got, issued{tr2.Access, tr2.Refresh})
 				for _, s := range strings.Fields(tr2.Scope) {
-					if !fosite.Arguments(granted).Has(s) {
+					if !hasExact(granted, s) {
 						h.Violate(rt, "C12/confine/refresh-widened", "refresh returned scope %q that was not in the original grant %q", s, granted)
 					}
 				}
@@ -626,13 +626,13 @@ func TestC12_Confinement(t *testing.T) {
 				continue
 			}
 			for _, s := range d.Scopes {
-				if !fosite.Arguments(reqScopes).Has(s) {
+				if !hasExact(reqScopes, s) {
 					h.Violate(rt, "C12/confine/token-scope", "flow %s: token carries scope %q which was never requested/granted (requested %q)", flow, s, reqScopes)
 				}
 			}
 			if flow != "jwt_bearer" && flow != "refresh" {
 				for _, a := range d.Audience {
-					if !fosite.Arguments(audStrings(reqAud)).Has(a) {
+					if !hasExact(audStrings(reqAud), a) {
 						h.Violate(rt, "C12/confine/token-audience", "flow %s: token carries audience %q which was never requested/granted (requested %q)", flow, a, audStrings(reqAud))
 					}
 				}
